@@ -21,10 +21,11 @@ from jax2onnx.converter.typing_support import LoweringContextProtocol
 from jax2onnx.plugins.jax._autodiff_utils import register_jvp_rule
 from jax2onnx.plugins.plugin_system import PrimitiveLeafPlugin, register_primitive
 from jax2onnx.plugins.jax.nn._builder_utils import (
+    lower_scaled_exp_linear_in_double,
     lower_unary_elementwise,
+    needs_double_parameters,
     register_unary_elementwise_batch_rule,
 )
-
 
 _LEAKY_RELU_PRIM: Final[Primitive] = Primitive("jax.nn.leaky_relu")
 _LEAKY_RELU_PRIM.multiple_results = False
@@ -108,6 +109,16 @@ class LeakyReluPlugin(PrimitiveLeafPlugin):
 
     def lower(self, ctx: LoweringContextProtocol, eqn: JaxprEqn) -> None:
         negative_slope = float(eqn.params.get("negative_slope", 0.01))
+        if needs_double_parameters(ctx, eqn, negative_slope):
+            lower_scaled_exp_linear_in_double(
+                ctx,
+                eqn,
+                kind="leaky_relu",
+                alpha=negative_slope,
+                input_hint="leaky_relu_in",
+                output_hint="leaky_relu_out",
+            )
+            return
 
         lower_unary_elementwise(
             ctx,
